@@ -41,6 +41,7 @@ Section Reporters.
   | ERegexp
   | EUsage (msg : bytes)
   | EConfigMissing
+  | EConfigSyntax                (* gcfg rejected the text of the configuration file *)
   | EWrite
   | EUnmodelled (why : bytes).
 
